@@ -83,6 +83,8 @@ def rand_frame(rng, kind=None):
         p = b""
     elif kind == "len1":
         p = bytes([rng.getrandbits(8)])
+    elif kind == "len2-4076":  # IGS family header without its sub-type byte: carries no complete identity
+        p = bytes([0xFE, 0xC0 | rng.getrandbits(4)])
     else:
         ln = int(kind[3:])
         p = rand_unknown_payload(rng, ln) if rng.random() < 0.7 else pad_payload(
